@@ -88,7 +88,13 @@ def chains(spec, acc):
     several simultaneous violations."""
     rnd = random.Random(spec["seed"])
     done = 0
+    rounds = 0
     while done < spec["n"]:
+        rounds += 1
+        if rounds % 12 == 1:
+            from .. import lazyscan
+
+            lazyscan.late_use_with_rules(rnd, acc, "C03")
         mods = random_tree(rnd, 8, 12, depth=3)
         leaves = [m for m in mods if m != "r"]
         imps = set()
@@ -167,6 +173,10 @@ def replay(case, acc):
         from . import c05
 
         return c05.replay(case, acc)
+    if case.get("kind") == "late-use":
+        from .. import lazyscan
+
+        return lazyscan.late_use_with_rules(None, acc, "C03", forced=case)
     if case.get("kind") == "regex_report":
         from ..refmodel import msgparse
 
@@ -193,6 +203,8 @@ def floors(acc, tier):
         why.append(f"only {acc.counters['c01_judged_nested_lists']} rules with nested module lists on one side judged")
     if acc.counters["c03_layer_reports_judged"] < 300:
         why.append(f"only {acc.counters['c03_layer_reports_judged']} reports of failing layer rules compared")
+    if acc.counters["rules_on_architectures_first_used_after_a_change"] < 50:
+        why.append("too few reports on scanned architectures that were first used after the tree / the working directory changed")
     if acc.counters["c03_judged"] < 5000:
         why.append(f"only {acc.counters['c03_judged']} reports compared")
     acc.flags["exhaustive"] = bool(acc.flags.get("exhaustive_T1"))
